@@ -25,6 +25,8 @@ def main():
             ctx.STATS["paths"] = 0; ctx.STATS["nontrivial"] = 0
             for k in chpatch.SOLVER_STATS: chpatch.SOLVER_STATS[k] = 0
             m = importlib.import_module(o["module"])
+            import gc
+            gc.collect(); gc.freeze()          # everything imported so far is permanent: later collections only look at what a path allocates
             if o.get("engine") == "smt":
                 res = getattr(m, o["func"])(o["params"])
                 out.update(res)
